@@ -4,7 +4,7 @@ CONSTANTS
   NTab = 1
   NSid = 6
   Devs = {}
-  Acts = {"WriteRow", "ConcatEmpty", "NewVec", "Copy", "Drop", "Write", "NewTable", "SetAttr", "ColView", "DropTable", "ReadFp", "ReadFpT"}
+  Acts = {"WriteNone", "WriteRow", "ConcatEmpty", "NewVec", "Copy", "Drop", "Write", "NewTable", "SetAttr", "ColView", "DropTable", "ReadFp", "ReadFpT"}
   Lens = {0, 1, 2}
   Vals = {0, 1}
   NameSet = {"-"}
@@ -19,6 +19,7 @@ INVARIANT InvRegistryExact
 INVARIANT InvNoSpuriousRefusal
 INVARIANT InvOwnership
 INVARIANT InvRect
+INVARIANT InvSharingJustified
 INVARIANT InvFpCoherent
 INVARIANT InvDtypeTruthful
 INVARIANT InvSane
